@@ -263,6 +263,62 @@ def gen(ctx, model):
         add("hmdec %s %s %s %s %s" % (mode, key, iv, aad, cs([stream[:31]])), "hmdec:%s:short<32" % mode)
         if len(stream) == 48 or len(stream) == 32 + 17:
             add("hmdecq %s %s %s %s %s" % (mode, key, iv, aad, cs([stream[:7], stream[7:]])), "hmdec:outlen-on-window-fill")
+    # ---------------- in place (out == in): same bytes as out of place = the model ----------------
+    def split16(data, unit=16):
+        """chunks whose sizes are multiples of `unit` (the last one arbitrary): the pattern of the gmssl tools"""
+        out, pos = [], 0
+        while pos < len(data):
+            n = unit * r.range(1, 3)
+            out.append(data[pos:pos + n]); pos += n
+        return out
+    for alg, keys in (("sm4", [16]), ("aes", [16, 24, 32])):
+        for pl in LENS + [100]:
+            for tl in (12, 16):
+                add("gcmrt! %s %s %s %s %s %d" % (alg, r.bytes(r.choice(keys)).hex(), r.bytes(r.choice([12, 12, 7, 16])).hex(), hexs(r.bytes(r.choice([0, 5, 16]))), hexs(r.bytes(pl)), tl),
+                    "gcm:inplace:rt:%s:pt%s" % (alg, "0" if pl == 0 else ("blk" if pl % 16 == 0 else "part")))
+        add("gcmdec! %s %s %s - %s %s" % (alg, r.bytes(keys[0]).hex(), r.bytes(12).hex(), r.bytes(33).hex(), r.bytes(16).hex()), "gcm:inplace:dec-random-tag:%s" % alg)
+    for nl in range(7, 14):
+        for al in (0, 14, 20):
+            for pl in (0, 1, 16, 17, 48):
+                tl = r.choice([4, 8, 16])
+                key, iv, aad, pt = r.bytes(16).hex(), r.bytes(nl).hex(), hexs(r.bytes(al)), hexs(r.bytes(pl))
+                add("ccmrt! %s %s %s %s %d" % (key, iv, aad, pt, tl), "ccm:inplace:rt:n%d" % nl)
+                if pl in (1, 48):
+                    add("ccmenc! %s %s %s %s %d" % (key, iv, aad, pt, tl), "ccm:inplace:enc:n%d" % nl)
+    enc_lines, metas = [], []
+    for pl in [0, 16, 17, 48, 100]:
+        key, iv, aad, pt = K0, r.bytes(12).hex(), hexs(r.bytes(r.choice([0, 7]))), r.bytes(pl)
+        add("gcmencs! %s %s %s 16 %s" % (key, iv, aad, cs(split16(pt))), "gcm:inplace:encs")
+        enc_lines.append("gcmenc sm4 %s %s %s %s 16" % (key, iv, aad, hexs(pt))); metas.append((key, iv, aad))
+    outs, _ = core.run_lines(model, enc_lines)
+    for (key, iv, aad), o in zip(metas, outs):
+        if " " in o:
+            c, t = o.split(" ")[:2]
+            stream = bytes.fromhex("" if c == "-" else c) + bytes.fromhex(t)
+            add("gcmdecs! %s %s %s 16 %s" % (key, iv, aad, cs(split16(stream))), "gcm:inplace:decs")
+    enc_lines, metas = [], []
+    for mode in ("cbc", "ctr"):
+        for pl in [0, 16, 17, 48, 80]:
+            key, iv, aad, pt = r.bytes(48).hex(), r.bytes(16).hex(), hexs(r.bytes(r.choice([0, 9]))), r.bytes(pl)
+            add("hmenc! %s %s %s %s %s" % (mode, key, iv, aad, cs(split16(pt))), "hm:inplace:enc:%s" % mode)
+            enc_lines.append("hmenc %s %s %s %s %s" % (mode, key, iv, aad, cs([pt]))); metas.append((mode, key, iv, aad))
+    outs, _ = core.run_lines(model, enc_lines)
+    for (mode, key, iv, aad), o in zip(metas, outs):
+        if not (o.startswith("ERR") or o.startswith("MODEL")):
+            add("hmdec! %s %s %s %s %s" % (mode, key, iv, aad, cs(split16(bytes.fromhex(o)))), "hm:inplace:dec:%s" % mode)
+    for kl in (16, 24, 32):
+        add("aesenc! %s %s" % (r.bytes(kl).hex(), r.bytes(16).hex()), "aes:inplace:enc")
+        add("aesdec! %s %s" % (r.bytes(kl).hex(), r.bytes(16).hex()), "aes:inplace:dec")
+        for pl in (0, 15, 16, 33):
+            add("aescbcenc! %s %s %s" % (r.bytes(kl).hex(), r.bytes(16).hex(), hexs(r.bytes(pl))), "aes:inplace:cbcenc")
+            add("aesctr! %s %s %s" % (r.bytes(kl).hex(), r.bytes(16).hex(), hexs(r.bytes(pl))), "aes:inplace:ctr")
+    for n in (0, 3, 4, 8, 13, 64):
+        key, iv, d = r.bytes(16).hex(), r.bytes(16).hex(), r.bytes(n)
+        add("zucenc! %s %s %s" % (key, iv, hexs(d)), "zuc:inplace:enc")
+        add("zucencs! %s %s %s" % (key, iv, cs(split16(d, 4))), "zuc:inplace:encs")
+    for nbits in (1, 32, 65, 193):
+        nw = (nbits + 31) // 32
+        add("zuceea! %s %d %d %d %d %s" % (r.bytes(16).hex(), r.below(2**32), r.below(32), r.below(2), nbits, r.bytes(4 * nw).hex()), "zuc:inplace:eea")
     return cases
 
 
